@@ -27,6 +27,7 @@ const (
 	// of at most 1 MiB, run alone in a fresh child.
 	aloneBudget = 120 * time.Second
 	batchCalls  = 5000
+	longChunks  = 4
 	// vmCapKiB is the ulimit -v backstop behind the child's own resident-set cap.
 	vmCapKiB = 8 << 20
 )
@@ -81,6 +82,8 @@ func Run(r *ev.Run, replay string) {
 		"Maven interpolation is driven with at most 8 distinct properties and at most 3 placeholders per property value (DESIGN section 8); larger tables produced by mutation skip Interpolate and are counted in maven:interpolate-skipped-large-table.",
 		"A recovered panic whose stack has no deps.dev frame is harness trouble and makes the run inconclusive, never a violation.",
 		"nil *Version / zero Set arguments are not text from outside and are not passed.",
+		"Polynomial running time is not a refutation of termination: Maven version parsing (number of separators), PyPI/RubyGems constraint parsing (number of != clauses), pypi.SdistVersion (number of hyphens) and schema's tree-art prefix replacement are quadratic, so the long shapes that trigger them are sized to take seconds (slowest_calls in evidence), two orders below the 120 s solo bound, which is there to catch non-termination only.",
+		"Class names: C04:panic|death|hang:<innermost exported deps.dev function on the stack>:<system>:<cause>@<innermost deps.dev frame>; C04:nontermination:<resolver>:<shape>, a named shape only when removing exactly that feature from the universe makes the resolution end.",
 	}
 	exe, err := os.Executable()
 	if err != nil {
@@ -138,7 +141,13 @@ func Run(r *ev.Run, replay string) {
 				n -= k
 			}
 			if len(d.longList(s)) > 0 {
-				plan = append(plan, &batch{driver: d.name, sys: s, kind: "long", n: longCap, seed: rng.Int63(), wit: -1})
+				// Four chunks per (driver, system), same seed: a chunk takes a
+				// few seconds at most, far below the watchdog even on a loaded
+				// machine.
+				seed := rng.Int63()
+				for i := 0; i < longChunks; i++ {
+					plan = append(plan, &batch{driver: d.name, sys: s, kind: fmt.Sprintf("long:%d:%d", i, longChunks), n: longCap, seed: seed, wit: -1})
+				}
 			}
 		}
 	}
